@@ -2343,6 +2343,9 @@ class Head(Expr):
 
     def _simplify_down(self):
         if isinstance(self.frame, Elemwise):
+            if len({_rows_root(e)._name for e in _row_operands(self.frame)}) > 1:
+                # operands with different rows are aligned by the operation
+                return
             operands = [
                 (
                     Head(op, self.n, self.operand("npartitions"))
@@ -2460,6 +2463,9 @@ class Tail(Expr):
 
     def _simplify_down(self):
         if isinstance(self.frame, Elemwise):
+            if len({_rows_root(e)._name for e in _row_operands(self.frame)}) > 1:
+                # operands with different rows are aligned by the operation
+                return
             operands = [
                 (
                     Tail(op, self.n)
